@@ -4,6 +4,7 @@ import inspect
 import selectors
 from typing import Any, Callable, Optional, Union
 from . import _logging
+from ._exceptions import WebSocketTimeoutException
 from ._socket import send
 
 
@@ -118,7 +119,18 @@ class WrappedDispatcher:
         check_callback: Callable,
     ) -> None:
         self.dispatcher.read(sock, read_callback)
-        self.ping_timeout and self.timeout(self.ping_timeout, check_callback)
+        if self.ping_timeout:
+
+            def check() -> bool:
+                try:
+                    return check_callback()
+                except WebSocketTimeoutException as e:
+                    # runs as a timer of the external dispatcher: report the loss
+                    # to the app instead of raising into the dispatcher's loop
+                    self.handleDisconnect(e)
+                    return False
+
+            self.timeout(self.ping_timeout, check)
 
     def send(self, sock: socket.socket, data: Union[str, bytes]) -> None:
         self.dispatcher.buffwrite(sock, data, send, self.handleDisconnect)
